@@ -1,6 +1,7 @@
 package main
 
 import (
+	"os"
 	"fmt"
 	"go/types"
 	"math/big"
@@ -108,6 +109,7 @@ type Def struct {
 }
 
 type VC struct {
+	consed map[string]string // (prefix|sort|body) -> definition name
 	defs   []*Def
 	byName map[string]*Def
 	n      int
@@ -155,12 +157,27 @@ func (vc *VC) Define(prefix string, s *Sort, body string) string {
 	if isAtom(body) || vc.inQuant > 0 {
 		return body
 	}
+	// hash-consing: the same (prefix, sort, body) is the same constant. Two loads of one cell from the
+	// same heap version get one name, which keeps queries small and lets the term-based instantiation
+	// match index terms syntactically.
+	key := prefix + "|" + s.SMT() + "|" + body
+	if vc.consed == nil {
+		vc.consed = map[string]string{}
+	}
+	if n, ok := vc.consed[key]; ok && !noCons {
+		return n
+	}
 	n := vc.fresh(prefix)
 	d := &Def{Name: n, Sort: s.SMT(), Body: body}
 	vc.defs = append(vc.defs, d)
 	vc.byName[n] = d
+	vc.consed[key] = n
 	return n
 }
+
+// hash-consing of definitions is semantically neutral but changes what the solvers find within the
+// inference budget (C20: Houdini kept a different candidate set); it stays off unless asked for.
+var noCons = os.Getenv("GOVC_CONS") == ""
 
 func isAtom(s string) bool {
 	if s == "" {
